@@ -7,6 +7,41 @@ from pyvc import groups
 from pyvc.groups import ob
 
 
+def step_counter_discipline(prop):
+    """the step counter is set to zero only where an attempt starts -- never inside a matcher loop, nor in a function that
+    holds a matcher loop or is called from one (the shared loop is entered again for every look-around body): a reset
+    there ("a fresh budget for each look-ahead body") would switch off the step limit and the polling that hangs off it"""
+    from pyvc import structural as S
+    import ast
+    tree = S.module("microjs.regex.vm")
+    loops = [f for f in ast.walk(tree) if isinstance(f, ast.FunctionDef)
+             and any(isinstance(w, ast.While) and isinstance(w.test, ast.Constant) and w.test.value is True for w in ast.walk(f))]
+    reentered = {f.name for f in loops}
+    for f in loops:
+        for c in ast.walk(f):
+            if isinstance(c, ast.Call) and isinstance(c.func, ast.Attribute) and isinstance(c.func.value, ast.Name) and c.func.value.id == "self":
+                reentered.add(c.func.attr)
+    resets_in_loop, resets = [], 0
+    for f in ast.walk(tree):
+        if isinstance(f, ast.FunctionDef):
+            loop_nodes = set()
+            for w in ast.walk(f):
+                if isinstance(w, (ast.While, ast.For)):
+                    loop_nodes.update(id(n) for n in ast.walk(w))
+            for n in ast.walk(f):
+                tgts = n.targets if isinstance(n, ast.Assign) else ([n.target] if isinstance(n, (ast.AugAssign, ast.AnnAssign)) else [])
+                for t_ in tgts:
+                    if "step_count" in _S_.unparse(t_):
+                        plain_increment = isinstance(n, ast.AugAssign) and isinstance(n.op, ast.Add) and _S_.unparse(n.value) == "1"
+                        if not plain_increment:
+                            resets += 1
+                            if id(n) in loop_nodes or f.name in reentered:
+                                resets_in_loop.append(f"{f.name}:{n.lineno}")
+    return ob(f"{prop}.struct.step-counter-reset-only-at-attempt-start", resets >= 1 and not resets_in_loop, "K3",
+              f"{resets} assignment(s) to the step counter other than `+= 1`; inside a matcher loop or a function entered from one: {resets_in_loop}",
+              witness="/^(?:(?=a)a|(?=a)a)*b/.test('a'.repeat(40) + 'c')  --  /((?=a)a+)+b/.test('a'.repeat(26) + 'c') under time_limit=0.3")
+
+
 @groups.group(id="C10.struct", prop="C10", kind="K3", functions=["microjs.regex.parser", "microjs.regex.vm:RegexVM._execute", "microjs.values:JSRegExp"])
 def c10_struct(tier="quick", seed=0):
     from pyvc import structural as S
@@ -42,27 +77,7 @@ def c10_struct(tier="quick", seed=0):
                   f"every matcher loop ({names}) bounds its backtrack stack by stack_limit"))
     out.append(ob("C10.struct.poll", all_loops(lambda t: "self.poll_interval" in t and "self.poll_callback" in t and "raise RegexTimeoutError" in t), "K3",
                   f"every matcher loop ({names}) polls the deadline callback"))
-    # the step counter is set to zero only where an attempt starts -- never inside a matcher loop, where a reset
-    # (e.g. "a fresh budget for each look-ahead body") would switch off both the step limit and the polling that hangs off it
-    resets_in_loop, resets = [], 0
-    for f in ast.walk(tree):
-        if isinstance(f, ast.FunctionDef):
-            loop_nodes = set()
-            for w in ast.walk(f):
-                if isinstance(w, (ast.While, ast.For)):
-                    loop_nodes.update(id(n) for n in ast.walk(w))
-            for n in ast.walk(f):
-                tgts = n.targets if isinstance(n, ast.Assign) else ([n.target] if isinstance(n, (ast.AugAssign, ast.AnnAssign)) else [])
-                for t_ in tgts:
-                    if "step_count" in _S_.unparse(t_):
-                        plain_increment = isinstance(n, ast.AugAssign) and isinstance(n.op, ast.Add) and _S_.unparse(n.value) == "1"
-                        if not plain_increment:
-                            resets += 1
-                            if id(n) in loop_nodes or f in loops and not _S_.unparse(n.value) == "0":
-                                resets_in_loop.append(f"{f.name}:{n.lineno}")
-    out.append(ob("C10.struct.step-counter-reset-only-at-attempt-start", resets >= 1 and not resets_in_loop, "K3",
-                  f"{resets} assignment(s) to the step counter other than `+= 1`; inside a loop: {resets_in_loop}",
-                  witness="/^(?:(?=a)a|(?=a)a)*b/.test('a'.repeat(40) + 'c')"))
+    out.append(step_counter_discipline("C10"))
     # the budget is per attempt and does not grow with the subject
     ex = _S_.unparse(S.fn("microjs.regex.vm", "RegexVM._execute"))
     lim = [n for f in loops for n in ast.walk(f) if isinstance(n, ast.Compare) and "step_limit" in _S_.unparse(n)]
